@@ -92,6 +92,26 @@ def _digest_taint(arg):
         except (Unsupported, PyRaise) as e:
             obs.append(dict(name=f"PersistentHashWalkMapper[{name}]/digest-inputs", status="undecided", backend="syntactic", time_s=0.0,
                             detail=f"unsupported: {e}", model="", goal="taint scan"))
+    # the walk itself: visit() must let the traversal descend into every node, whatever was visited before (no dependence on id / object sharing)
+    try:
+        ctx = smt.Ctx()
+        I = Interp(ctx, class_table=list(verify.node_class_table()))
+        I.new_objects, I.map_defs, I.map_info = [], {}, {}
+        I.op_may_raise = False
+        selfv = SymObj(PersistentHashWalkMapper, {}, z3.Const("self", smt.V))
+        kh = SymObj(object, {}, z3.Const("key_hash", smt.V))
+        kh.attrs["update"] = BoundMethod(kh, NativeHandler(lambda I, self_obj, args, kwargs, star, dstar, node: Conc(None)), "update")
+        selfv.attrs["key_hash"] = kh
+        expr = SymV(z3.Const("expr", smt.V))
+        outs = I.explore(lambda: I.call_function(Conc(loader.unwrap(PersistentHashWalkMapper.visit)), [selfv, expr], {}))
+        rets = [o for o in outs if o.kind == "ret"]      # raising paths (type(expr).__name__ on an opaque object) are not judged
+        ok = bool(rets) and all(isinstance(o.value, Conc) and o.value.obj is True for o in rets)
+        obs.append(dict(name="PersistentHashWalkMapper.visit/always-descends", status="discharged" if ok else "refuted", backend="syntactic", time_s=0.0,
+                        detail="" if ok else f"visit() does not return True on every returning path: {[str(o.value)[:80] for o in outs][:4]}", model="",
+                        goal="visit(expr) returns True for every expr and every state of the mapper: equal trees are walked identically"))
+    except (Unsupported, PyRaise) as e:
+        obs.append(dict(name="PersistentHashWalkMapper.visit/always-descends", status="undecided", backend="syntactic", time_s=0.0,
+                        detail=f"unsupported: {e}", model="", goal="visit(expr) returns True unconditionally"))
     return dict(contract="C17.digest-inputs", status="ok", obligations=obs, function=None, paths=len(obs), time_s=time.time() - t0)
 
 
@@ -164,7 +184,7 @@ def digest_eq(tier):
     from immutabledict import immutabledict
     from pymbolic.mapper.persistent_hash import PersistentHashWalkMapper
     b = BoundedRun("digest-respects-eq", rule="pairs of equal expressions built differently (keyword order, dict vs immutabledict, 4 vs 4.0 vs True constants, "
-                   "tuple vs scalar index, by-name comparison operators): persistent digests must be equal; unequal control pairs listed too",
+                   "tuple vs scalar index, by-name comparison operators, and with shared vs. separately built equal subexpression objects): persistent digests must be equal",
                    bound="fixed list of 12 pairs", functions=["PersistentHashWalkMapper"])
 
     def dg(e):
@@ -184,6 +204,17 @@ def digest_eq(tier):
             ("cmp-by-name", p.Comparison(x, "le", y), p.Comparison(x, "<=", y)),
             ("same-source", p.Sum((x, p.Product((y, 2)))), p.Sum((p.Variable("x"), p.Product((p.Variable("y"), 2))))),
             ("cse-scope-none", p.CommonSubexpression(x, None, None), p.CommonSubexpression(x)),
+        ]
+        # equal expressions that differ only in how many distinct OBJECTS they are made of (pickle preserves sharing, rebuilding from source does not)
+        s_ = p.Sum((x, y))
+        cs = p.CommonSubexpression(p.Product((x, y)), "c")
+        pairs += [
+            ("shared-operand", p.Product((s_, s_)), p.Product((p.Sum((x, y)), p.Sum((p.Variable("x"), p.Variable("y")))))),
+            ("shared-leaf", p.Sum((x, x, x)), p.Sum((p.Variable("x"), p.Variable("x"), p.Variable("x")))),
+            ("shared-cse", p.Sum((cs, p.Power(cs, 2))), p.Sum((p.CommonSubexpression(p.Product((x, y)), "c"), p.Power(p.CommonSubexpression(p.Product((x, y)), "c"), 2)))),
+            ("shared-nested", p.Quotient(p.Sum((s_, 1)), p.Product((s_, p.Sum((s_, 1))))),
+             p.Quotient(p.Sum((p.Sum((x, y)), 1)), p.Product((p.Sum((x, y)), p.Sum((p.Sum((x, y)), 1)))))),
+            ("shared-call-args", p.Call(f, (s_, s_)), p.Call(f, (p.Sum((x, y)), p.Sum((x, y))))),
         ]
     for name, a, c in pairs:
         if not (a == c):
